@@ -1489,6 +1489,8 @@ def gen_sim(seed, index):
     batch = rng.choice([0, 0, 1, 2, 3, n_test // 2 or 1, n_test])
     batch = min(batch, max(1, n_test - 1)) if batch else 0
     return {"bandits": bandits, "decisions": decisions, "rewards": rewards, "contexts": contexts, "test_size": test_size,
+            "scaler": (random.Random("%s/sim-scaler/%s" % (seed, index)).choice([None, None, None, "standard", "minmax"])
+                       if contextual else None),
             "is_ordered": True if boundary else rng.random() < 0.5, "batch_size": batch, "is_quick": rng.random() < 0.5, "seed": rng.randint(0, 10 ** 6),
             "cfg": {"lp": bandits[0]["lp"], "np": bandits[0]["np"], "arms": arms}, "ops": []}
 
@@ -1496,6 +1498,13 @@ def gen_sim(seed, index):
 def _deterministic_expectations(cfg):
     k = cfg["lp"]["k"]
     return k == "ucb" or k == "linucb" or (k in ("greedy", "lingreedy") and cfg["lp"].get("eps", 0) == 0)
+
+
+def _make_scaler(kind):
+    if not kind:
+        return None
+    from sklearn.preprocessing import StandardScaler, MinMaxScaler
+    return StandardScaler() if kind == "standard" else MinMaxScaler()
 
 
 def run_simulator(scn):
@@ -1510,7 +1519,7 @@ def run_simulator(scn):
     try:
         sim = Simulator([("b%d" % i, m) for i, m in enumerate(mabs)], list(scn["decisions"]), list(scn["rewards"]),
                         None if scn["contexts"] is None else [list(r) for r in scn["contexts"]],
-                        scaler=None, test_size=scn["test_size"], is_ordered=scn["is_ordered"], batch_size=scn["batch_size"],
+                        scaler=_make_scaler(scn.get("scaler")), test_size=scn["test_size"], is_ordered=scn["is_ordered"], batch_size=scn["batch_size"],
                         seed=scn["seed"], is_quick=scn["is_quick"])
         sim.run()
     finally:
@@ -1548,6 +1557,13 @@ def simulator_vs_public_api(scn):
     dec, rew, ctx, tr, te = _split(scn)
     if [int(x) for x in sim.test_indices] != [int(x) for x in te]:
         return "test_indices %r differ from the split %r" % (list(sim.test_indices), te)
+    if scn.get("scaler") and ctx is not None:
+        # the documented protocol: the scaler is fit on the training contexts and applied to both parts
+        sc = _make_scaler(scn["scaler"])
+        ctx2 = np.array(ctx, dtype=float)
+        ctx2[tr] = sc.fit_transform(ctx[tr])
+        ctx2[te] = sc.transform(ctx[te])
+        ctx = ctx2
     bs = scn["batch_size"]
     for i, (cfg, m) in enumerate(zip(scn["bandits"], originals)):
         name = "b%d" % i
